@@ -12,6 +12,10 @@ CLAIMED = {
             '§4 C06', 'TLC; AsmEncode.tla as the reading of the ISA operand sets'),
     'C07': ('enc', 'TLC exhaustive check of the %hi/%lo theorem on limbs (all 4096 low parts x upper classes; thorough: all 2^20 upper parts) + TLC trace validation of relocate_hi/lo and of decoded lui/auipc+addi/lw/sw/jalr pairs emitted for literals, constants, labels and %position, compression off and on',
             '§4 C07', 'TLC; HiLoOps.tla; RV32Dec/RVCDec'),
+    'C18': ('dfu', 'TLC exhaustive model checking of the host (shaped like dfu.cli_main) composed with a DfuSe device over all lengths, busy/poll-delay schedules, start states and failing operations within small constants (+ liveness under fairness, + named deviations that each invariant must catch); every exported TLC behaviour replayed into the real dfu.cli_main(); TLC trace validation (DfuTrace) of ~2000 recorded real runs (4 flash variants, boundary/swept lengths, random timing) in which TLC recomputes the flash from the requests',
+            '§4 C18', 'TLC; DfuDevice.tla as the reading of DFU 1.1/DfuSe; fake usb module + patched time.sleep record faithfully'),
+    'C19': ('dfu', 'same model and trace validation as C18 with every oversize class and every single / double device-error injection at every erase / write step; clauses OversizeRefusedBeforeAnyDnload and ErrorNeverAnnouncedDone judged by TLC on every recorded run',
+            '§4 C19', 'TLC; DfuDevice.tla; the harness decides whether the failure output names the status (string search for the DFU status description / number)'),
 }
 
 NOT_YET = {
@@ -50,6 +54,8 @@ def main():
         'engines': [
             {'name': 'enc', 'path': 'harness/engines/enc.py', 'serves_properties': ['C01', 'C02', 'C06', 'C07'],
              'kind_free_text': 'TLA+ decoders/contract (RV32Dec, RVCDec, AsmEncode, HiLoOps) + TLC model checking + TLC trace validation of recorded encoder results'},
+            {'name': 'dfu', 'path': 'harness/engines/dfu.py', 'serves_properties': ['C18', 'C19'],
+             'kind_free_text': 'TLA+ host+device model (Dfu, DfuDevice) checked exhaustively by TLC; real dfu.cli_main() run in-process against a simulated usb device; recorded request/sleep traces validated by TLC (DfuTrace)'},
         ],
         'checks': checks,
         'not_applicable': na,
